@@ -110,13 +110,27 @@ async fn dump_request_while_dumping(l: &mut Loose<8>, delay_ms: u64, closes: usi
     }
     let dir = l.dir.clone();
     tap::arm(&dir, false, false);
-    tap::set_faults(&dir, vec![tap::Fault { kinds: vec![tap::Kind::Write], suffix: ".index".into(), nth: 0, sticky, action: tap::Action::Delay(delay_ms) }]);
-    for i in 0..closes {
-        let _ = l.exec(&Op::Put { k: i as u16 % 4, ts: i as u64, meta: None, size: 20 }).await;
-        let _ = l.exec(&Op::Close).await;
-        let _ = l.exec(&Op::Create).await;
+    if sticky {
+        // variant B: several closed, dumped blobs hold key 0; then every index write becomes slow and ONE delete
+        // appends a marker to all of them: one deferred dump request, one pass over all these blobs, which outlasts
+        // the 200 ms time slice after the first or second blob and has to be continued
+        for i in 0..closes {
+            let _ = l.exec(&Op::Put { k: 0, ts: i as u64, meta: None, size: 20 }).await;
+            let _ = l.exec(&Op::Close).await;
+            let _ = l.exec(&Op::Create).await;
+        }
+        l.barrier().await;
+        tap::set_faults(&dir, vec![tap::Fault { kinds: vec![tap::Kind::Write], suffix: ".index".into(), nth: 0, sticky: true, action: tap::Action::Delay(delay_ms) }]);
+        let _ = l.exec(&Op::Del { k: 0, ts: 50, meta: None, only_if: false }).await;
+    } else {
+        tap::set_faults(&dir, vec![tap::Fault { kinds: vec![tap::Kind::Write], suffix: ".index".into(), nth: 0, sticky: false, action: tap::Action::Delay(delay_ms) }]);
+        for i in 0..closes {
+            let _ = l.exec(&Op::Put { k: i as u16 % 4, ts: i as u64, meta: None, size: 20 }).await;
+            let _ = l.exec(&Op::Close).await;
+            let _ = l.exec(&Op::Create).await;
+        }
+        let _ = l.exec(&Op::Put { k: 0, ts: 9, meta: None, size: 20 }).await;
     }
-    let _ = l.exec(&Op::Put { k: 0, ts: 9, meta: None, size: 20 }).await;
     let s = l.storage.as_ref().unwrap();
     let t0 = Instant::now();
     loop {
@@ -127,6 +141,9 @@ async fn dump_request_while_dumping(l: &mut Loose<8>, delay_ms: u64, closes: usi
         }
         let active_id = active_id_of(s, &dir).await;
         let (missing, checked) = closed_blobs_without_index(&dir, active_id);
+        if std::env::var("PV_DEBUG_C13").is_ok() && sticky && out.polls % 50 == 1 {
+            eprintln!("[c13 sticky] delay={} closes={} t={:?} polls={} missing={:?} checked={}", delay_ms, closes, t0.elapsed(), out.polls, missing, checked);
+        }
         if missing.is_empty() {
             out.index_files_checked += checked;
             break;
@@ -134,7 +151,11 @@ async fn dump_request_while_dumping(l: &mut Loose<8>, delay_ms: u64, closes: usi
         // generous multiple of everything the injected delays can add up to
         let patience = Duration::from_secs(3) + if sticky { Duration::from_millis(delay_ms * closes as u64 * 10) } else { Duration::ZERO };
         if t0.elapsed() > patience && out.polls > 100 {
-            out.violation = Some((if sticky { "closed-blob-never-dumped-after-long-dump-pass".to_string() } else { "dump-request-lost-while-dump-running".to_string() }, format!("blobs {:?} were closed with try_close_active_blob while an earlier index dump was still running ({} ms delayed index write); their dump request was never served: no index file after {} worker barriers over {:?}", missing, delay_ms, out.polls, t0.elapsed())));
+            out.violation = Some((if sticky { "closed-blob-never-dumped-after-long-dump-pass".to_string() } else { "dump-request-lost-while-dump-running".to_string() }, if sticky {
+                format!("one delete appended a marker to {} closed blobs, every index write takes {} ms, so the dump pass outlasts the 200 ms time slice: blobs {:?} still have no current index file after {} worker barriers over {:?}", closes, delay_ms, missing, out.polls, t0.elapsed())
+            } else {
+                format!("blobs {:?} were closed with try_close_active_blob while an earlier index dump was still running ({} ms delayed index write); their dump request was never served: no index file after {} worker barriers over {:?}", missing, delay_ms, out.polls, t0.elapsed())
+            }));
             break;
         }
         tokio::time::sleep(Duration::from_millis(5)).await;
